@@ -55,6 +55,10 @@ CHECKS = {
          "The real manager.Manager over the real connection.Manager talks to a scripted gNMI server on bufconn: per target 3-8 sessions of 0-20 numbered messages ending in error / EOF / silence, dial refusals, receive timeouts, forced Reconnect and Remove+re-Add at seeded message indexes and during backoff, duplicate Add and unknown Remove/Reconnect. Every callback, connection attempt and stream opening feeds an online state machine: Connect only after the first message of a new stream, deliveries only in session and an in-order prefix of what that stream carried, exactly one Reset per ended stream before the next stream, backoff between attempts (one-sided), bounded retry progress, and no event after Remove returned.",
          "Retry delays 20/40 ms; liveness restated as bounded progress (40 s grace, attributed by goroutine dump); silence observed for a 60 ms settling window; spurious reconnects tolerated as the statement allows.",
          "3/C13"),
+ "C05": ("reference-model differential plus trace monitor over an interactive in-memory gRPC stream, with seeded schedule perturbation",
+         "On every execution produced, ONCE and every POLL round (triggers handed to the stream only after the previous sync was observed) delivered exactly the model's matching set with the leaves' current notifications, exactly one trailing sync per round, a nil final status, and nothing after a sync or after the end; under concurrent writers every leaf present for the whole round was delivered, every value sent was one the leaf held between round start and send, and nothing non-matching was sent. Runs comprise an exhaustive sweep of glob, prefix/path split, origin and target placements over a small tree (about 11.8k RPCs), 4000 (thorough 100000) random contents and path sets with sequential cache changes between poll rounds, and 200 (3000) concurrent-writer trials.",
+         "'Matching' = CompletePath's origin placement, the index form of keyed elements and model.MatchQ; over-delivery (a leaf selected by overlapping paths sent more than once) is counted, not a violation ('at least once'); valid data only, origins in the prefix; one writer per target in concurrent mode; non-termination judged by a 20 s attributable-stuck rule.",
+         "3/C05"),
  "C06": ("exhaustive small-scope + seeded-random model differential on the real match trie / UpdateNotification / Server.Subscribe with counting clients",
          "Every (query, path) pair over {a,b,*}^<=4 is pushed through the real match trie (Update, UpdateOnce, UpdateNotification) and 'offered' is compared with the compatibility relation of the statement; ctree.Query results are checked to be contained and streamed; every query set of size <= 2 is checked for at-most-once delivery against exhaustive single/multi update/delete notification shapes; seeded random subscribe/unsubscribe/update histories are compared with a model registry (removal, idempotence, sibling clients, re-add, caller-reused query slices); the server's own subscription path construction is driven through the real Server.Subscribe/Server.Update over an in-memory stream and compared with Compat on the index path, with path.CompletePath's snapshot path and with a census of the trie after the RPCs ended. Held = held on those executions.",
          "model.Compat/IndexPath/IndexPrefix are the specification; plain Update judged for offered/not offered only; ambiguous re-registration histories excluded; the end-of-RPC census uses read-only reflection (availability recorded in the counters; skipped, never a violation, when unavailable); single goroutine at the match level.",
